@@ -153,7 +153,14 @@ impl Child {
 
 impl Drop for Child {
     fn drop(&mut self) {
+        // closing stdin ends the worker loop; give the child a moment to exit on its own (it may clean up its scratch files)
         self.stdin = None;
+        for _ in 0..100 {
+            if let Ok(Some(_)) = self.proc_.try_wait() {
+                return;
+            }
+            std::thread::sleep(Duration::from_millis(10));
+        }
         let _ = self.proc_.kill();
         let _ = self.proc_.wait();
         if let Some(h) = self.err_thread.take() {
